@@ -31,6 +31,9 @@ class NodeRef:
     # the same statistics computed from the rewards the algorithm stored (diagnosis only)
     alt_ep_ret: float = 0.0
     alt_avg_ret: float = 0.0
+    # all (episode_return, average_return) pairs consistent with the record: a done step of a
+    # stochastic transition does not reveal its successor, so the true reward can be ambiguous
+    ret_states: set = field(default_factory=lambda: {(0.0, 0.0)})
     # true (un-bootstrapped) reward history of the current rollout, for reports
     history: list = field(default_factory=list)
 
@@ -223,6 +226,16 @@ def check_node_rollout(
 
         # -- RefLogger on TRUE rewards
         node.log_step += 1
+        true_rs = sorted({round(g["r"], 9) for g in good}) if good else [c["r"]]
+        if len(true_rs) > 1:
+            res.probes["ambiguous_true_reward"] += 1
+        nxt = set()
+        for (er, ar) in node.ret_states:
+            for tr_ in true_rs:
+                er2 = (0.0 if node.ep_done else er) + tr_
+                ar2 = alpha * er2 + (1 - alpha) * ar if done else ar
+                nxt.add((round(er2, 9), round(ar2, 9)))
+        node.ret_states = set(sorted(nxt)[:64])
         node.ep_ret = (0.0 if node.ep_done else node.ep_ret) + c["r"]
         node.ep_len = (0 if node.ep_done else node.ep_len) + 1
         node.alt_ep_ret = (0.0 if node.ep_done else node.alt_ep_ret) + r_st
@@ -392,13 +405,16 @@ def check_logger(res, rec, node: NodeRef, i: int, T: int):
     if not close(rec["log_avg_len"], node.avg_len, rel=1e-5, terms=terms):
         res.fail("C19", "ema_at_episode_end", "average_length", node=i, got=float(rec["log_avg_len"]), expected=node.avg_len)
         ok = False
-    bad_ret = not close(rec["log_ep_ret"], node.ep_ret, rel=1e-5, terms=terms)
-    bad_avg = not close(rec["log_avg_ret"], node.avg_ret, rel=1e-5, terms=terms)
-    if bad_ret or bad_avg:
+    match = any(
+        close(rec["log_ep_ret"], er, rel=1e-5, terms=terms) and close(rec["log_avg_ret"], ar, rel=1e-5, terms=terms)
+        for (er, ar) in node.ret_states
+    )
+    if not match:
+        bad_avg = not any(close(rec["log_avg_ret"], ar, rel=1e-5, terms=terms) for (_, ar) in node.ret_states)
         alt = close(rec["log_ep_ret"], node.alt_ep_ret, rel=1e-5, terms=terms) and close(rec["log_avg_ret"], node.alt_avg_ret, rel=1e-5, terms=terms)
         cause = "timeout_bootstrap_counted_as_reward" if alt else ("average_return" if bad_avg else "episode_return_in_progress")
-        res.fail("C19", "sum_of_true_rewards", cause, node=i, got_ep=float(rec["log_ep_ret"]), expected_ep=node.ep_ret,
-                 got_avg=float(rec["log_avg_ret"]), expected_avg=node.avg_ret)
+        res.fail("C19", "sum_of_true_rewards", cause, node=i, got_ep=float(rec["log_ep_ret"]), got_avg=float(rec["log_avg_ret"]),
+                 consistent_pairs=sorted(node.ret_states)[:8])
         ok = False
     if ok:
         res.ok("C19", "ema_at_episode_end")
